@@ -407,6 +407,72 @@ pub fn umad_case(gk: GenomeKind, kind: UmadKind, a: (u32, u32), d: (u32, u32), g
     (st.leaves, st.choice_points, bad, outs.len())
 }
 
+/// One `Umad` value used twice: on an empty and on a non-empty parent, in either order (the empty-genome
+/// rate and the addition rate are different parameters; a value that remembers which of them it used first,
+/// or anything else about the first parent, shows on the second).  Both outputs are judged by the
+/// structural oracle for their own parent.
+pub fn umad_reuse_case(a: (u32, u32), e: (u32, u32), d: (u32, u32), l: usize, empty_first: bool, m: u32) -> (u64, u64, Option<(String, String)>, usize) {
+    let kind = UmadKind::EmptyRate(e.0, e.1);
+    let label = format!("one Umad::new_with_empty_rate(a={}/{}, empty={}/{}, d={}/{}) value used on {}", a.0, a.1, e.0, e.1, d.0, d.1, if empty_first { format!("an empty parent, then a parent of {l}") } else { format!("a parent of {l}, then an empty parent") });
+    let alpha = alphabet_of(m);
+    let g = 2usize;
+    let mut bad: Option<(String, String)> = None;
+    let mut outs: BTreeSet<(Vec<Gene>, Vec<Gene>)> = BTreeSet::new();
+    let scenario = |env: &mut Env| {
+        let gen = TagGen { g, serial: Cell::new(0) };
+        let mut rng = ChoiceRng::new(env, alpha);
+        mcx::guarded(|| {
+            let um = mk_umad(kind, rate(a), rate(d), &gen);
+            let lens = if empty_first { [0, l] } else { [l, 0] };
+            let mut res = vec![];
+            for len in lens {
+                let before = gen.serial.get();
+                let parent: Vector<Gene> = (0..len).map(Gene::Old).collect();
+                let out = um.mutate(parent, &mut rng).unwrap();
+                // serials are counted per application
+                let genes: Vec<Gene> = out
+                    .genes
+                    .into_iter()
+                    .map(|x| match x {
+                        Gene::New { serial, choice } if serial >= before && serial != usize::MAX => Gene::New { serial: serial - before, choice },
+                        Gene::New { .. } => Gene::New { serial: usize::MAX, choice: usize::MAX },
+                        o => o,
+                    })
+                    .collect();
+                res.push((genes, gen.serial.get() - before, len));
+            }
+            res
+        })
+    };
+    let mut visit = |r: Result<Vec<(Vec<Gene>, usize, usize)>, String>| match r {
+        Err(p) => {
+            if bad.is_none() {
+                bad = Some(("umad-reused/panic".into(), format!("{label}: panicked: {p}")));
+            }
+        }
+        Ok(res) => {
+            for (which, (out, produced, len)) in res.iter().enumerate() {
+                if let Some((k, w)) = umad_structure(out, *produced, *len, kind, a, d, g) {
+                    if bad.is_none() {
+                        bad = Some((format!("umad-reused/{k}"), format!("{label}: the {} application (parent of {len}): {w}", if which == 0 { "first" } else { "second" })));
+                    }
+                }
+            }
+            outs.insert((res[0].0.clone(), res[1].0.clone()));
+        }
+    };
+    // short parents: the whole tree; longer ones: every stream with at most one non-default word
+    let st = if l <= 2 { explore(scenario, |_, _, r| visit(r), 20_000_000) } else { mcx::explore_bounded(scenario, |_, r| visit(r), 1, 200_000) };
+    if let Some(dv) = &st.diverged {
+        return (st.leaves, st.choice_points, Some(("umad/nondeterministic".into(), format!("{label}: {dv}"))), outs.len());
+    }
+    drop(visit);
+    if st.capped {
+        return (st.leaves, st.choice_points, Some(("machinery/cap".into(), format!("{label}: capped"))), outs.len());
+    }
+    (st.leaves, st.choice_points, bad, outs.len())
+}
+
 /// Long parents (around 64, 128, 256 genes, where a word-sized mask, a `u8` index or a fixed buffer
 /// would run out): every stream with at most `dev` non-default words over the grid plus the extreme
 /// words; the structural oracle on every leaf, and over all leaves every parent position must be seen
@@ -588,6 +654,7 @@ pub fn alphabet_of(m: u32) -> Alphabet {
 }
 
 pub enum Case {
+    UmadReuse((u32, u32), (u32, u32), (u32, u32), usize, bool, u32),
     UmadLong(GenomeKind, (u32, u32), (u32, u32), usize, usize),
     Flip(FlipKind, bool, (u32, u32), usize, u32),
     Umad(GenomeKind, UmadKind, (u32, u32), (u32, u32), usize, usize, u32, bool),
@@ -617,6 +684,18 @@ pub fn cases(quick: bool) -> Vec<Case> {
         for l in if quick { (9usize..=70).chain([100, 128, 129, 256, 257]).collect::<Vec<usize>>() } else { (9usize..=140).chain([191, 192, 255, 256, 257, 300, 511, 512, 513]).collect() } {
             for (a, d) in [((1u32, 2u32), (1u32, 2u32)), ((1, 1), (1, 2)), ((1, 2), (0, 1))] {
                 v.push(Case::UmadLong(gk, a, d, l, if quick || l > 130 { 1 } else { 2 }));
+            }
+        }
+    }
+    for a in &rates {
+        for e in &rates {
+            for d in &rates {
+                for l in [1usize, 2, 37] {
+                    // (the full tree for the short parents, every stream with at most one non-default word for the long one)
+                    for empty_first in [true, false] {
+                        v.push(Case::UmadReuse(*a, *e, *d, l, empty_first, 2));
+                    }
+                }
             }
         }
     }
@@ -653,6 +732,7 @@ pub fn cases(quick: bool) -> Vec<Case> {
 
 pub fn run_case(c: &Case) -> (u64, u64, Option<(String, String)>, usize) {
     match c {
+        Case::UmadReuse(a, e, d, l, ef, m) => umad_reuse_case(*a, *e, *d, *l, *ef, *m),
         Case::UmadLong(gk, a, d, l, dev) => umad_long_case(*gk, *a, *d, *l, *dev),
         Case::Flip(fk, ool, r, l, m) => flip_case(*fk, *ool, *r, *l, *m),
         Case::Umad(gk, kind, a, d, g, l, m, via) => umad_case(*gk, *kind, *a, *d, *g, *l, *m, *via),
@@ -661,6 +741,7 @@ pub fn run_case(c: &Case) -> (u64, u64, Option<(String, String)>, usize) {
 
 fn case_json(c: &Case) -> Value {
     match c {
+        Case::UmadReuse(a, e, d, l, ef, m) => json!({"check":"C11","scenario":"umad-reuse","a":[a.0,a.1],"e":[e.0,e.1],"d":[d.0,d.1],"l":l,"empty_first":ef,"m":m}),
         Case::UmadLong(gk, a, d, l, dev) => json!({"check":"C11","scenario":"umad-long","genome":format!("{gk:?}"),"a":[a.0,a.1],"d":[d.0,d.1],"l":l,"dev":dev}),
         Case::Flip(fk, ool, r, l, m) => json!({"check":"C11","scenario":"flip","kind":format!("{fk:?}"),"one_over_length":ool,"rate":[r.0,r.1],"l":l,"m":m}),
         Case::Umad(gk, kind, a, d, g, l, m, via) => json!({"check":"C11","scenario":"umad","genome":format!("{gk:?}"),"kind":format!("{kind:?}"),"a":[a.0,a.1],"d":[d.0,d.1],"g":g,"l":l,"m":m,"via":via}),
@@ -692,7 +773,7 @@ pub fn run(run: &mut Run) {
     run.states = cs.len() as u64;
     run.traces_validated = run.evaluations;
     run.distinct_nontrivial = nontrivial;
-    run.rule = "WithRate / WithOneOverLength on Vec<TagBit>, Vector<TagBit>, Bitstring (each also held in a buffer with spare capacity) and through Mutate; Umad (new / new_with_empty_rate / new_without_empty) on Vector<Gene>, Plushy (instruction genes, and parents whose even positions are close markers) and Bitstring, through &, by value and through Mutate; all parent lengths 0..L, all lattice rates, all grid word sequences, and (lengths <= 3 for flips, <= 2 for UMAD) all sequences over the grid plus the extreme words 0 and all-ones; plus UMAD on long parents (64..257, thorough 31..300) under every stream with at most 1 (2) non-default words; structural oracle on every leaf (positions preserved, subsequence order, at most one insertion per parent position, provenance of new genes, boundary rates). non-trivial = scenarios with more than one distinct output".into();
+    run.rule = "WithRate / WithOneOverLength on Vec<TagBit>, Vector<TagBit>, Bitstring (each also held in a buffer with spare capacity) and through Mutate; Umad (new / new_with_empty_rate / new_without_empty) on Vector<Gene>, Plushy (instruction genes, and parents whose even positions are close markers) and Bitstring, through &, by value and through Mutate; all parent lengths 0..L, all lattice rates, all grid word sequences, and (lengths <= 3 for flips, <= 2 for UMAD) all sequences over the grid plus the extreme words 0 and all-ones; plus UMAD on long parents (64..257, thorough 31..300) under every stream with at most 1 (2) non-default words; plus one Umad::new_with_empty_rate value applied to an empty and a non-empty parent in either order (all lattice rates for the three parameters; parents of 1, 2 (whole tree) and 37 genes (every stream with at most one non-default word)), both outputs judged; structural oracle on every leaf (positions preserved, subsequence order, at most one insertion per parent position, provenance of new genes, boundary rates). non-trivial = scenarios with more than one distinct output".into();
     run.bound("max_parent_length", json!(if run.quick() { 3 } else { 4 }));
     run.bound("rates", json!(if run.quick() { "{0, 1/2, 1, 2}" } else { "{0, 1/4, 1/2, 3/4, 1, 2}" }));
     run.assumptions = vec!["structure is rate independent: lattice rates reach both outcomes of every coin".into()];
@@ -712,6 +793,7 @@ pub fn replay(v: &Value) -> bool {
                 .unwrap_or(FlipKind::VecTag);
             Case::Flip(fk, v["one_over_length"].as_bool().unwrap_or(false), pair(&v["rate"]), l, m)
         }
+        Some("umad-reuse") => Case::UmadReuse(pair(&v["a"]), pair(&v["e"]), pair(&v["d"]), l, v["empty_first"].as_bool().unwrap_or(true), m),
         Some("umad-long") => {
             let gk = [GenomeKind::Vector, GenomeKind::Plushy, GenomeKind::PlushyClose].into_iter().find(|k| Some(format!("{k:?}").as_str()) == v["genome"].as_str()).unwrap_or(GenomeKind::Vector);
             Case::UmadLong(gk, pair(&v["a"]), pair(&v["d"]), l, v["dev"].as_u64().unwrap_or(1) as usize)
